@@ -740,6 +740,13 @@ class Interp:
             if is_conc(r): ov = not (lo <= r <= hi)
             else: ov = z3.Or(r > hi, r < lo)
             return Agg('tuple', 0, [r, ov])
+        if (is_real(a) or is_real(b)) and op in ('Div', 'Rem') and destty is not None and destty.strip() in INT_RANGE:
+            # integer division of integer-typed operands that are modelled over the reals (real-valued clock / hit counters)
+            a = to_real(a); b = to_real(b)
+            if not ctx.branch(b != 0): raise Panic('attempt to divide by zero', 'arith')
+            q = ctx.fresh_int('fdiv'); qr = z3.ToReal(q)
+            ctx.add(z3.And(qr * b <= a, a < (qr + 1) * b) if True else True)
+            return qr if op == 'Div' else a - qr * b
         if is_real(a) or is_real(b):
             a = to_real(a); b = to_real(b)
             if op == 'Div': return a / b
@@ -914,6 +921,11 @@ class Interp:
         if isinstance(cell.v, tuple) and len(cell.v) == 2 and cell.v[0] == 'uninit-static':
             tag, name = cell.v[1]
             sf = s.p.statics.get(name)
+            if sf is None:
+                # allocation tables name statics inside impl blocks by type ("T::f::S"), items by impl span ("<impl at ..>::f::S")
+                suf = '::'.join(name.split('::')[-2:])
+                c = [f_ for n_, f_ in s.p.statics.items() if n_.endswith('::' + suf) and f_.tag == tag]
+                if len(c) == 1: sf = c[0]
             if sf is None: raise Unsupported('static ' + name)
             cell.v = ('initialising', name)
             v = yield from s.call_fn(ctx, sf, [])
